@@ -100,7 +100,7 @@ class write_raw_integer_data(Contract):
 KIND_FLAGS = [CT_PRIMITIVE_SIGNED, CT_PRIMITIVE_UNSIGNED, CT_PRIMITIVE_CHAR, CT_PRIMITIVE_FLOAT, CT_POINTER,
               CT_ARRAY, CT_STRUCT, CT_UNION, CT_FUNCTIONPTR, CT_VOID, CT_PRIMITIVE_COMPLEX]
 
-R.inline |= {'_convert_overflow', 'CDataObject_Or_PyFloat_Check'}
+R.inline |= {'_convert_overflow', 'CDataObject_Or_PyFloat_Check', 'read_raw_float_data'}
 
 
 def ctype_fields(c, st, ct):
@@ -118,7 +118,10 @@ def ctype_wf(c, st, ct):
         c.valid(ct, 104), one_hot,
         z3.Implies(isint, size_ok(size)),
         z3.Implies(z3.And(isint, flag(flags, CT_PRIMITIVE_FITS_LONG)), z3.Or(sgn, size < 8)),
-        z3.Implies(flag(flags, CT_IS_BOOL), z3.And(uns, size == 1, flag(flags, CT_PRIMITIVE_FITS_LONG))))
+        z3.Implies(flag(flags, CT_IS_BOOL), z3.And(uns, size == 1, flag(flags, CT_PRIMITIVE_FITS_LONG))),
+        z3.Implies(z3.And(flag(flags, CT_PRIMITIVE_FLOAT), z3.Not(flag(flags, CT_IS_LONGDOUBLE))),
+                   z3.Or(size == 4, size == 8)),
+        z3.Implies(flag(flags, CT_IS_LONGDOUBLE), z3.And(flag(flags, CT_PRIMITIVE_FLOAT), size == 16)))
 
 
 def is_int_ctype(c, st, ct):
@@ -355,6 +358,24 @@ class _ConvFrom(Contract):
 R.add(_ConvFrom)
 
 
+float_val = z3.Function('float_val', B64, z3.Float64())     # ghost: the value of a Python float object
+
+
+def stored_float(c, st, addr, size):
+    """the double a float (size 4) or double (size 8) stored at addr converts to"""
+    f32 = z3.fpFPToFP(z3.RNE(), z3.fpBVToFP(c.raw(st, addr, 4), z3.Float32()), z3.Float64())
+    return z3.If(size == 4, f32, z3.fpBVToFP(c.raw(st, addr, 8), z3.Float64()))
+
+
+@R.model('PyFloat_FromDouble', "new float object with that value (allocation succeeds: A-ALLOC)")
+def _float_from(ex, st, args, n):
+    o = ex.fresh('newfloat', B64)
+    c = Ctx(ex, {}, st)
+    st.assume(z3.And(o != 0, c.valid(o, 24), py_type(c, st, o) == ex.global_addr('PyFloat_Type'),
+                     float_val(o) == args[0]))
+    return o
+
+
 class _ConvTo(Contract):
     """convert_to_object: proved for integer ctypes (incl. _Bool)."""
     name = 'convert_to_object'
@@ -362,13 +383,17 @@ class _ConvTo(Contract):
     def pre(self, c):
         size, flags = ctype_fields(c, c.old, c['ct'])
         return [('ctype-wf', ctype_wf(c, c.old, c['ct'])),
-                ('data-valid-for-integers', z3.Implies(is_int_ctype(c, c.old, c['ct']), c.valid(c['data'], size)))]
+                ('data-valid-for-integers', z3.Implies(self.in_scope(c), c.valid(c['data'], size)))]
+
+    def is_float(self, c):
+        size, flags = ctype_fields(c, c.old, c['ct'])
+        return z3.And(flag(flags, CT_PRIMITIVE_FLOAT), z3.Not(flag(flags, CT_IS_LONGDOUBLE)))
 
     def in_scope(self, c):
-        return is_int_ctype(c, c.old, c['ct'])
+        return z3.Or(is_int_ctype(c, c.old, c['ct']), self.is_float(c))
 
     def scope(self, c):
-        return [('integer-ctype', self.in_scope(c))]
+        return [('integer, float or double ctype', self.in_scope(c))]
 
     def frame(self, c):
         return Frame(err=True, havoc_if=z3.Not(self.in_scope(c)))
@@ -379,7 +404,7 @@ class _ConvTo(Contract):
 
     def post(self, c):
         size, flags = ctype_fields(c, c.old, c['ct'])
-        sc = self.in_scope(c)
+        sc = is_int_ctype(c, c.old, c['ct'])
         unit = S.le_unit(byte_reader(c.old), c['data'], size)
         sgn = flag(flags, CT_PRIMITIVE_SIGNED)
         isb = flag(flags, CT_IS_BOOL)
@@ -398,6 +423,10 @@ class _ConvTo(Contract):
             ('_Bool other byte: ValueError',
              z3.Implies(z3.And(sc, isb, z3.UGT(unit, 1)),
                         z3.And(r == 0, c.new.err == exc(c.ex, 'ValueError')))),
+            ('float/double: returns a float object with the stored value (widened exactly)',
+             z3.Implies(self.is_float(c),
+                        z3.And(r != 0, float_val(r) == stored_float(c, c.old, c['data'], size),
+                               c.new.err == c.old.err))),
         ]
 
 
